@@ -61,7 +61,7 @@ SANITIZER_PLAN = {
         "C05": ["explore", "hugechunk"], "C06": ["explore", "probe"],
         "C07": ["explore", "probe"], "C08": ["explore"], "C10": ["explore"], "C11": ["explore", "hugechunk"],
         "C09": ["probe"],
-        "C13": ["explore", "miri"], "C14": ["explore", "miri"],
+        "C13": ["explore", "probe", "miri"], "C14": ["explore", "miri"],
         "C16": ["probe"],
     },
     "thorough": {
@@ -72,7 +72,7 @@ SANITIZER_PLAN = {
         "C05": ["explore", "hugechunk", "release", "tsan", "miri"],
         "C06": ["explore", "probe", "release", "miri", "asan"],
         "C07": ["explore", "probe", "release", "asan", "tsan"],
-        "C13": ["explore", "release", "miri", "asan"],
+        "C13": ["explore", "probe", "release", "miri", "asan"],
         "C14": ["explore", "release", "miri", "asan"],
         "C08": ["explore"],
         "C09": ["probe"],
